@@ -148,7 +148,30 @@ func (p *Path) symAppend(s Slice, a *Arr, extra []Val, et types.Type) Slice {
 }
 
 func (p *Path) symAppendSlice(s Slice, e Slice, et types.Type) Slice {
-	panic(unsupported("append of a slice with symbolic length"))
+	// the one case the repository needs: zero padding of symbolic length
+	// (append(data, make([]T, n)...)): the appended slice is a fresh
+	// all-zero array, so the result is the old contents followed by zeros
+	ea, ok := p.Heap[e.Obj].(*Arr)
+	if !ok || ea.Elems != nil {
+		panic(unsupported("append of a slice with symbolic length"))
+	}
+	for _, t := range ea.Sym {
+		if t.Op != "constarray" {
+			panic(unsupported("append of a symbolic-length slice that is not a fresh zero slice"))
+		}
+	}
+	var old []Val
+	if s.Obj != 0 {
+		old = p.SliceElems(s) // needs a concrete length
+	}
+	na := &Arr{Sym: append([]*smt.Term{}, ea.Sym...), ElemT: et}
+	for i, v := range old {
+		na = p.symArrSet(na, i64(int64(i)), v)
+	}
+	newLen := smt.BVAdd(i64(int64(len(old))), e.Len)
+	cp := p.Fresh("cap", smt.BV(64))
+	p.Assume(smt.BVUle(newLen, cp))
+	return Slice{Obj: p.Alloc(na), Off: i64(0), Len: newLen, Cap: cp}
 }
 
 func (p *Path) symCopy(dst Slice, src Slice) Val {
